@@ -541,6 +541,9 @@ func isIdentity(p []int) bool {
 func TestGroupRandom(t *testing.T) {
 	rapid.Check(t, func(t *rapid.T) {
 		n := rapid.IntRange(0, 8).Draw(t, "n")
+		if rapid.IntRange(0, 19).Draw(t, "large") == 0 {
+			n = rapid.SampledFrom([]int{31, 32, 33, 40, 70}).Draw(t, "nLarge") // any number of members
+		}
 		c := groupCase{
 			Strategy: int(strategies[rapid.IntRange(0, len(strategies)-1).Draw(t, "strategy")]),
 			OK:       rapid.SliceOfN(rapid.Bool(), n, n).Draw(t, "ok"),
